@@ -154,6 +154,7 @@ type Frame struct {
 	debugRefs2  map[string][]*ssa.DebugRef
 	callStates  map[string][]*State
 	evalAt      *ssa.BasicBlock
+	nameTypeFilter string // set while a name#Type identifier is being resolved
 	visitedMode int // 0: at loop head, 1: at loop entry (inv-init), 2: at a back edge
 	preCallStates map[string][]*State
 	lastRet     *ssa.Return
